@@ -377,7 +377,11 @@ def excused(rec, name, H, for_c08=False):
         return 'blacklisted'
     pos = rec['pos'].get(name)
     if pos is not None and pos[2]['rank'] == UNPLACED:
-        return 'over-cap'
+        # 'over its utilisation cap' excuses only an instance whose own allocation has a cap (by the harness' record of
+        # what was configured); without one nothing can put it over
+        al = H.allocs.get(tuple_key(a['alloc']))
+        if al is None or al.get('maxutil') is not None:
+            return 'over-cap'
     pre = rec['pre'].get(name, {})
     if a['group'] is not None and pre.get('identity') is not None and \
             not pre['identity'] < H.groups.get(a['group'], 0):
